@@ -1,10 +1,8 @@
-(* C20 — the POSITIVE name obligation: the bootstrapper addresses no dimension by a string
-   literal, i.e. it works for every sample_name / feature_name of the model.
-   EXPECTED TO FAIL on a tree where xeofs/validation/bootstrapper.py still says "sample"
-   (defect F-07); it is therefore NOT imported by Props/C20.v, which carries the refutation
-   C20_names_refuted instead.  After a repair: this file compiles, Proofs/C20_tie.v
-   (tie_names_refuted, tie_literal_sites) stops compiling; replace the refutation in
-   Props/C20.v by  Theorem C20_names : boot_literal_dims = [] /\ ... . Proof. exact tie_names. Qed. *)
+(* C20 — the name obligation: the bootstrapper addresses no dimension by the string literals
+   "sample"/"feature" and builds its member EOF with the model's own sample_name / feature_name,
+   i.e. it works for every naming of the model.  (Was refuted before the repair of defect F-07 in
+   xeofs/validation/bootstrapper.py; a reintroduced literal makes [boot_literal_dims] non-empty and
+   breaks this proof.) *)
 From Coq Require Import String List.
 From XV Require Import Gen.T5boot.
 Import ListNotations.
